@@ -181,12 +181,16 @@ Post ==
     /\ raw' = <<>>
     /\ UNCHANGED <<shape, limit, uniq, tplc, modv, depc, last, nruns>>
 
-Next ==
+(* A history ends when the property has been violated (the violating state is kept as a terminal state so    *)
+(* that EmitBad can print it).                                                                              *)
+Step ==
     \/ /\ pc = "idle" /\ nruns < MaxRuns
        /\ \E d \in DefIds : \E S \in Closed(d) : \E ord \in Orders(S) :
           \E mode \in (IF nruns = 0 THEN {"fresh"} ELSE Modes) : \E omit \in OmitVals :
               StartRun(d, ord, mode, omit)
     \/ Compile \/ Render \/ Post
+
+Next == ok /\ Step
 
 Spec == Init /\ [][Next]_vars
 
@@ -204,4 +208,7 @@ OwnLineKept == \A k \in DOMAIN memo : \E i \in 1..Len(memo[k]) : memo[k][i] = <<
 
 (* ---- case emission (spec -> code): one record per complete history ----                                  *)
 Emit == (pc = "idle" /\ nruns = MaxRuns) => PrintT(ToJson([shape |-> shape, limit |-> limit, runs |-> hist]))
+
+(* ---- negative controls: print every violating history (a predicted defect, replayed against the real code) *)
+EmitBad == ok \/ PrintT(ToJson([shape |-> shape, limit |-> limit, runs |-> hist]))
 =============================================================================
